@@ -164,7 +164,7 @@ PROPS = {
         "assumptions": ["judged only where the exact result is representable (the property's 'whenever')"],
     },
     "C02": {
-        "require": [('checked_add', 'none'), ('checked_div', 'none'), ('overflowing_mul', 'flag-set'), ('overflowing_neg', 'flag-set'), ('wrapping_div', 'panic'), ('saturating_mul_int', 'value'), ('checked_abs', 'none'), ('overflowing_div_int', 'flag-set')],
+        "require": [('checked_add', 'none'), ('checked_div', 'none'), ('overflowing_mul', 'flag-set'), ('overflowing_neg', 'flag-set'), ('saturating_mul_int', 'value'), ('checked_abs', 'none'), ('overflowing_div_int', 'flag-set')],
         "title": "checked/saturating/wrapping/overflowing agree on one exact result",
         "stages": [{"driver": "arith"}],
         "rule": ARITH_RULE,
@@ -176,7 +176,7 @@ PROPS = {
         "rule": ARITH_RULE,
     },
     "C07": {
-        "require": [('checked_rem', 'none'), ('rem', 'panic'), ('checked_div_euclid', 'none'), ('overflowing_rem_euclid_int', 'flag-set'), ('overflowing_div_euclid_int', 'flag-set'), ('checked_rem_euclid_int', 'none')],
+        "require": [('checked_rem', 'none'), ('checked_div_euclid', 'none'), ('overflowing_rem_euclid_int', 'flag-set'), ('overflowing_div_euclid_int', 'flag-set'), ('checked_rem_euclid_int', 'none')],
         "title": "remainders and Euclidean division",
         "stages": [{"driver": "arith"}],
         "rule": ARITH_RULE,
